@@ -108,7 +108,8 @@ def main(argv):
     a = ap.parse_args(argv)
     from selftest.cases import CASES
 
-    cases = [c for c in CASES if a.k in c.name or a.k == c.prop]
+    keys = [k for k in a.k.split("|")] if a.k else [""]
+    cases = [c for c in CASES if any(k in c.name or k == c.prop for k in keys)]
     if a.list:
         for c in cases:
             print(c.prop, c.kind, c.name)
